@@ -133,6 +133,23 @@ func runC01(c *runCfg) error {
 			}
 		}
 	}
+	// long user and database names (63, 64, 65, 200 bytes; pairs that share their first 63 bytes): the validator is
+	// asked about exactly the names of the startup packet
+	for _, n := range []int{62, 63, 64, 65, 128, 200} {
+		for _, tail := range []string{"", "-admin", "X"} {
+			user := strings.Repeat("u", n) + tail
+			db := strings.Repeat("d", n) + tail
+			for _, auth := range []string{"pw", "accept", "reject"} {
+				cfg := simpleCfg(1024)
+				cfg.auth = auth
+				cfg.authPW = []byte("secret")
+				cs := lockCase(id, "long_names", cfg, startupMsg("user", user, "database", db), [][]byte{mPassword([]byte("secret")), mQuery([]byte("select 1"))})
+				cs.pre = 2
+				emitSession(c, cs)
+				id++
+			}
+		}
+	}
 	// several users authenticate on one server at the same time: the startup of one falls between the password
 	// request and the password of another, in every order; right and wrong passwords mixed. Each connection is
 	// judged on its own credentials.
@@ -523,6 +540,22 @@ func runC10(c *runCfg) error {
 				msgs := append([][]byte{first, msg('S', make([]byte, L+1+len(after)))}, after...)
 				emitSession(c, lockCase(id, "oversized_sync", cfg, su, msgs))
 				id++
+			}
+		}
+		// Sync / Flush with a body inside a COPY (within and above the limit)
+		if L >= 40 || L == 16 {
+			bcfg, hs := copyBodyCases(L)
+			for _, h := range hs {
+				fits := true
+				for _, m := range h[:len(h)-1] {
+					if len(m)-5 > L && m[0] != 'S' && m[0] != 'H' {
+						fits = false
+					}
+				}
+				if fits {
+					emitSession(c, lockCase(id, "copy_bodies", bcfg, su, h))
+					id++
+				}
 			}
 		}
 		// the skipped region split over several reads
